@@ -580,7 +580,7 @@ let monitor_pair prop case obs =
        else "PASS"
      | ["PAIR"; "cacheperm"; pid] when prop = "C06" ->
        (* sa: with the Cacheable mark, sb: without it *)
-       if ok sb && not (ok sa) then begin
+       if ok sb then begin
          (* the clause at stake: a provider whose inputs depend on a per-invocation value is never hoisted.
             In the chain without the mark, did the provider receive a value produced per invocation? *)
          let group_of p = List.fold_left (fun acc t -> match String.split_on_char ':' t with
@@ -592,8 +592,11 @@ let monitor_pair prop case obs =
              | [_; prod; _] -> (match group_of prod with "0" | "3" | "4" -> true | _ -> false)
              | _ -> false) in
          let dep = List.exists (fun tok -> before '(' tok = "C" ^ pid && List.exists per_invocation (args tok)) (sec "LOG" sb) in
-         if dep then
+         if dep && not (ok sa) then
            "FAIL the chain binds without the Cacheable mark on provider " ^ pid ^ " but not with it, although the provider's inputs are per-invocation values (it must simply not be hoisted)"
+         else if dep && oa <> ob then
+           "FAIL provider " ^ pid ^ " receives per-invocation values, yet marking it Cacheable changes the chain: " ^ first_diff (split_ws oa) (split_ws ob)
+         else if dep then "PASS"
          else "PASS (the marked provider takes only static inputs: hoisting it is what the mark asks for)"
        end else "PASS"
      | ["PAIR"; "refltwin"; _] when prop = "C20" ->
